@@ -15,7 +15,10 @@ var NonWf = map[string]string{
 	"wallet.RawMessage":                  "helper struct with a plain *boc.Cell field (a cell stored inline replaces the cell under construction)",
 }
 
-var unprovedCodec = map[string]string{}
+var unprovedCodec = map[string]string{
+	"wallet.MessageV5":         "wallet.W5ExtendedActions",
+	"wallet.W5ExtendedActions": "wallet.W5ExtendedActions",
+}
 
 // get-method result structs: filled from the VM stack, never laid out in a cell; they hold boc.Cell / Any values inline
 var getMethodResults = []string{
